@@ -37,6 +37,8 @@ def gen_coord_tables():
     for variant, status in arms:
         if status not in _STATUS_NUM:
             raise ExtractError(f"{p}: status_code: unknown status {status}")
+        if variant == "SyncError":
+            continue  # its code comes from the wrapped MetaSyncError; never returned by the modelled calls
         if variant not in codes:
             raise ExtractError(f"{ps}: to_code has no arm for {variant}")
         rows.append((codes[variant], _STATUS_NUM[status]))
@@ -73,7 +75,11 @@ def gen_coord_tables():
     out.append(f'def ERR_NOT_MY_META : String := "{_const_str(t, "ERR_NOT_MY_META", p)}"  -- {p}')
     # send_meta: OLD_EPOCH is success, any other error reply fails
     p = "src/coordinator/sync.rs"
-    body = fn_body(src(p), "send_meta", p)
+    t = src(p)
+    i0 = t.find("async fn send_meta<")
+    if i0 < 0:
+        raise ExtractError(f"{p}: free fn send_meta not found")
+    body = fn_body(t[i0:], "send_meta", p)
     if not re.search(r"Resp::Error\(err_str\)\s*=>\s*\{\s*if\s+err_str\s*==\s*OLD_EPOCH_REPLY\.as_bytes\(\)\s*\{\s*Ok\(\(\)\)\s*\}", body):
         raise ExtractError(f"{p}: send_meta: OLD_EPOCH handling not recognised")
     out.append(f"/-- `send_meta` maps an `OLD_EPOCH` error reply to `Ok(())` -/")
